@@ -27,6 +27,7 @@ func modelErrPos(ans string) (int, int, bool) {
 }
 
 func suiteC16ErrPos(cfg Config, res *Result) {
+	defer c16ReentrantTagErrors(res)
 	defer c16BOM(res)
 	defer c16TwoLoaders(res)
 	res.Rule = "programs that fail: byte-damaged grammar programs (parser and lexer errors) and valid programs with an execution error planted at a random place (zero divisor, index into a scalar, call of a non-function, wrong arity, filter over its cap), laid out over several lines with multi-byte text before the failing construct, also inside included / extended / imported files; oracle (model-free): the reported file exists in the case and, at the reported line and column of that file (line = 1 + newlines before, column = 1 + bytes since the last newline, recounted from the source text independently of the lexer), the reported token's text is found; non-trivial = error on line > 1 or in a sub-file; distinct by case"
